@@ -381,9 +381,6 @@ func c11Server(run *evid.Run) {
 		var declared uint64
 		if inp.binary || (len(in) > 0 && in[0] == 0x80) {
 			declared = parsemon.DeclaredBinarySeq(in)
-			if m := parsemon.DeclaredBinaryMax(in); m > declared {
-				declared = m
-			}
 		} else {
 			declared = parsemon.DeclaredText(in)
 		}
